@@ -1,20 +1,27 @@
-"""Certificate-guided proofs of polynomial equalities modulo the path condition.
+"""Certificate-guided proofs of equalities between rational-function terms modulo the path condition.
 
-nlsat is poor at  `pc |- p/q == 0`  when the proof is an ideal-membership
-argument (p = sum_i c_i g_i with g_i == 0 the equalities of the path
-condition: q*q == radicand for sqrt atoms, c*c + s*s == 1 for unit pairs).
-sympy is used as an UNTRUSTED hint generator: it proposes the cofactors c_i
-(multivariate division).  Every step that the conclusion rests on is then
-discharged by z3:
+nlsat is poor at  `pc |- E == 0`  when the proof is an ideal-membership
+argument: E = N/D with N = sum_i c_i g_i, where g_i == 0 are the polynomial
+equalities of the path condition (q*q == radicand for sqrt atoms,
+c*c + s*s == 1 for unit pairs, definitions).  Here
 
-  (1) the pure polynomial identity  p - sum_i c_i g_i == 0   (no hypotheses),
-  (2) pc |- q != 0                                            (the denominator),
-  (3) each g_i == 0 is literally a conjunct of pc,
-  (4) G_i == 0 /\\ P == sum_i C_i G_i /\\ Q != 0  =>  P/Q == 0  over fresh
-      variables (the composition step).
+  (a) E is brought to the form N/D by this module's own fraction arithmetic
+      (a/b + c/d = (ad + cb)/(bd), ... : no cancellation, no sympy), which is
+      valid wherever every divisor occurring in E is non-zero;
+  (b) each such divisor is shown non-zero under pc by z3 (usually it is
+      literally a conjunct of pc, because every division forked on it);
+  (c) sympy -- UNTRUSTED, a hint generator -- proposes cofactors c_i by
+      multivariate division of N by the g_i;
+  (d) z3 checks the pure polynomial identity  N - sum_i c_i g_i == 0  with no
+      hypotheses, the g_i being written as the difference of the two sides of
+      equalities that are conjuncts of pc;
+  (e) z3 checks the composition step over fresh variables:
+      G_i == 0, P == sum_i C_i G_i, Q != 0, X Q == P  =>  X == 0.
 
-If sympy proposes nothing useful the caller falls back to the plain query.
+Applications of uninterpreted functions are treated as opaque constants.
+If any step fails the caller falls back to the plain query.
 """
+import os
 import time
 
 import z3
@@ -32,86 +39,190 @@ def _equalities(pc):
     return out
 
 
+def _abstract_ufs(terms):
+    """replace applications of uninterpreted functions by fresh constants (the same application -> the same constant):
+    an equality proved with them opaque holds a fortiori."""
+    found = {}
+
+    def walk(t, seen):
+        if t.get_id() in seen:
+            return
+        seen.add(t.get_id())
+        if z3.is_app(t) and t.decl().kind() == z3.Z3_OP_UNINTERPRETED and t.num_args() > 0:
+            found.setdefault(t.get_id(), t)
+            return
+        for c in t.children():
+            walk(c, seen)
+    seen = set()
+    for t in terms:
+        walk(t, seen)
+    if not found:
+        return terms
+    sub = [(t, z3.Real('cert_uf_%d' % i)) for i, t in enumerate(found.values())]
+    return [z3.substitute(t, *sub) for t in terms]
+
+
+class NotRational(Exception):
+    pass
+
+
+def ratfun(e, memo, divisors):
+    """(N, D): polynomial z3 terms with e == N/D wherever all recorded divisors are non-zero."""
+    k = e.get_id()
+    if k in memo:
+        return memo[k]
+    one = z3.RealVal(1)
+    if z3.is_rational_value(e) or z3.is_const(e):
+        r = (e, one)
+    else:
+        kind = e.decl().kind()
+        if kind not in (z3.Z3_OP_ADD, z3.Z3_OP_SUB, z3.Z3_OP_MUL, z3.Z3_OP_DIV, z3.Z3_OP_UMINUS, z3.Z3_OP_POWER):
+            raise NotRational(str(e.decl()))
+        if kind == z3.Z3_OP_POWER:
+            ex = e.arg(1)
+            if not (z3.is_rational_value(ex) and ex.denominator_as_long() == 1 and 0 <= ex.numerator_as_long() <= 12):
+                raise NotRational('power')
+            b = ratfun(e.arg(0), memo, divisors)
+            n, d = one, one
+            for _ in range(ex.numerator_as_long()):
+                n, d = n * b[0], (b[1] if z3.eq(d, one) else (d if z3.eq(b[1], one) else d * b[1]))
+            r = (n, d)
+        else:
+            ch = [ratfun(c, memo, divisors) for c in e.children()]
+            if kind in (z3.Z3_OP_ADD, z3.Z3_OP_SUB):
+                n, d = ch[0]
+                for (n2, d2) in ch[1:]:
+                    if kind == z3.Z3_OP_SUB:
+                        n2 = -n2
+                    if z3.eq(d, d2):
+                        n = n + n2
+                    elif z3.eq(d2, one):
+                        n = n + n2 * d
+                    elif z3.eq(d, one):
+                        n, d = n * d2 + n2, d2
+                    else:
+                        n, d = n * d2 + n2 * d, d * d2
+                r = (n, d)
+            elif kind == z3.Z3_OP_MUL:
+                n, d = ch[0]
+                for (n2, d2) in ch[1:]:
+                    n = n * n2
+                    d = d2 if z3.eq(d, one) else (d if z3.eq(d2, one) else d * d2)
+                r = (n, d)
+            elif kind == z3.Z3_OP_UMINUS:
+                r = (-ch[0][0], ch[0][1])
+            else:   # DIV
+                (n1, d1), (n2, d2) = ch
+                divisors.append(e.arg(1))
+                n = n1 if z3.eq(d2, one) else n1 * d2
+                d = n2 if z3.eq(d1, one) else d1 * n2
+                r = (n, d)
+    memo[k] = r
+    return r
+
+
+def _nonzero_in_pc(pc, d):
+    """is `d != 0` (or a strict sign of d) literally a conjunct of pc?"""
+    zero = z3.RealVal(0)
+
+    def pair(a, b):
+        return (z3.eq(a, d) and z3.eq(b, zero)) or (z3.eq(b, d) and z3.eq(a, zero))
+    for c in pc:
+        if z3.is_not(c) and z3.is_eq(c.arg(0)) and pair(c.arg(0).arg(0), c.arg(0).arg(1)):
+            return True
+        if z3.is_distinct(c) and c.num_args() == 2 and pair(c.arg(0), c.arg(1)):
+            return True
+        if (z3.is_gt(c) or z3.is_lt(c)) and pair(c.arg(0), c.arg(1)):
+            return True
+    return False
+
+
 def prove_eq_mod(ctx, lhs, rhs, extra=(), timeout_ms=20000):
     """pc /\\ extra |- lhs == rhs ?  -> ('unsat' | 'unknown', seconds, info)"""
     import sympy
     t0 = time.time()
+    dbg = os.environ.get('CERT_DEBUG')
     try:
-        syms = {}
-        E = sympy.together(symx._to_sympy(z3.simplify(lhs - rhs), syms))
-        num, den = sympy.fraction(E)
-        num, den = sympy.expand(num), sympy.expand(den)
-        eqs = _equalities(list(ctx.pc) + list(extra))
-        gs, gz = [], []
-        for e in eqs:
-            try:
-                g = sympy.together(symx._to_sympy(z3.simplify(e.arg(0) - e.arg(1)), syms))
-                gn, gd = sympy.fraction(g)
-                if not gd.is_number:
-                    continue            # only polynomial relations are used as generators
-                gn = sympy.expand(gn / gd)
-                if gn == 0 or gn.is_number:
-                    continue
-                gs.append(gn)
-                gz.append(e)
-            except NotImplementedError:
+        pcs = list(ctx.pc) + list(extra)
+        allt = _abstract_ufs([lhs, rhs] + pcs)
+        lhs, rhs, pcs = allt[0], allt[1], allt[2:]
+        # (a) own fraction arithmetic
+        divisors = []
+        try:
+            N, D = ratfun(lhs - rhs, {}, divisors)
+        except NotRational as e:
+            return 'unknown', time.time() - t0, 'not a rational-function term (%s)' % e
+        # (b) divisors are non-zero under pc
+        seen = set()
+        for d in divisors:
+            if d.get_id() in seen:
                 continue
-        if not gs:
-            return 'unknown', time.time() - t0, 'no polynomial relations in the path condition'
-        free = set(num.free_symbols)
-        for g in gs:
-            free |= g.free_symbols
-        # atoms introduced last (sqrt atoms, unit pairs: names with '!') first, so that each relation leads with its own atom
-        def order(sy):
-            nm = sy.name
-            if '_' in nm and nm.rsplit('_', 1)[1].isdigit():
-                return (0, -int(nm.rsplit('_', 1)[1]), nm)
-            return (1, 0, nm)
-        gens = sorted(free, key=order)
-        Q, r = sympy.reduced(num, gs, *gens, order='lex')
-        if r != 0:
-            import os
-            if os.environ.get('CERT_DEBUG'):
-                print('GENS', gens); print('GS', gs); print('NUM', num); print('REM', r)
-            return 'unknown', time.time() - t0, 'remainder not zero'
-        # (1) the identity, checked by z3 with no hypotheses
-        zn = symx._from_sympy(num, syms)
+            seen.add(d.get_id())
+            if z3.is_rational_value(d):
+                if d.numerator_as_long() == 0:
+                    return 'unknown', time.time() - t0, 'division by the constant zero'
+                continue
+            if _nonzero_in_pc(pcs, d):
+                continue
+            r2, dt2, _ = symx.solve(pcs + [d == 0], min(timeout_ms, 10000))
+            if r2 != 'unsat':
+                return 'unknown', time.time() - t0, 'divisor not shown non-zero (%s): %s' % (r2, str(d)[:80])
+        # (c) cofactors proposed by sympy
+        syms = {}
+        num = sympy.expand(symx._to_sympy(N, syms))
+        Q, gs, gz = [], [], []
+        if num != 0:
+            for e in _equalities(pcs):
+                try:
+                    g = sympy.together(symx._to_sympy(z3.simplify(e.arg(0) - e.arg(1)), syms))
+                    gn, gd = sympy.fraction(g)
+                    if not gd.is_number:
+                        continue            # only polynomial relations are used as generators
+                    gn = sympy.expand(gn / gd)
+                    if gn == 0 or gn.is_number:
+                        continue
+                    gs.append(gn)
+                    gz.append(e)
+                except NotImplementedError:
+                    continue
+            if not gs:
+                return 'unknown', time.time() - t0, 'no polynomial relations in the path condition'
+            free = set(num.free_symbols)
+            for g in gs:
+                free |= g.free_symbols
+
+            # atoms introduced last (sqrt atoms, unit pairs: names ending in a counter) first, so that each relation leads with its own atom
+            def order(sy):
+                nm = sy.name
+                if '_' in nm and nm.rsplit('_', 1)[1].isdigit():
+                    return (0, -int(nm.rsplit('_', 1)[1]), nm)
+                return (1, 0, nm)
+            gens = sorted(free, key=order)
+            Q, r = sympy.reduced(num, gs, *gens, order='lex')
+            if r != 0:
+                if dbg:
+                    print('GENS', gens); print('GS', gs); print('REM', str(r)[:600])
+                return 'unknown', time.time() - t0, 'remainder not zero'
+        # (d) the identity, checked by z3 with no hypotheses; generators written from pc's own equalities
         comb = z3.RealVal(0)
         used = []
-        for q_, g_, e_ in zip(Q, gs, gz):
+        for q_, e_ in zip(Q, gz):
             if q_ == 0:
                 continue
-            comb = comb + symx._from_sympy(sympy.expand(q_), syms) * symx._from_sympy(g_, syms)
-            used.append((g_, e_))
-        r1, dt1, _ = symx.solve([zn - comb != 0], timeout_ms)
+            comb = comb + symx._from_sympy(sympy.expand(q_), syms) * (e_.arg(0) - e_.arg(1))
+            used.append(e_)
+        r1, dt1, _ = symx.solve([N - comb != 0], timeout_ms)
         if r1 != 'unsat':
             return 'unknown', time.time() - t0, 'identity not confirmed by z3 (%s)' % r1
-        # (3) the generators are the path condition's own equalities, re-derived: g == lhs_i - rhs_i as an identity
-        for g_, e_ in used:
-            r3, dt3, _ = symx.solve([symx._from_sympy(g_, syms) - (e_.arg(0) - e_.arg(1)) != 0], timeout_ms)
-            if r3 != 'unsat':
-                return 'unknown', time.time() - t0, 'generator does not match its path-condition equality'
-        # (2) denominator
-        zd = symx._from_sympy(den, syms)
-        if den != 1:
-            r2, dt2, _ = symx.solve(list(ctx.pc) + list(extra) + [zd == 0], timeout_ms)
-            if r2 != 'unsat':
-                return 'unknown', time.time() - t0, 'denominator not shown non-zero (%s)' % r2
-        # the original term really is num/den: identity lhs - rhs == num/den wherever the original denominators are non-zero --
-        # checked as (lhs - rhs) * den == num under pc (divisions in pc-guarded terms are by non-zero quantities)
-        r5, dt5, _ = symx.solve(list(ctx.pc) + list(extra) + [(lhs - rhs) * zd != zn], min(timeout_ms, 10000))
-        if r5 != 'unsat':
-            # fall back to the syntactic argument only when z3 cannot relate the two forms
-            return 'unknown', time.time() - t0, 'normal form not confirmed (%s)' % r5
-        # (4) composition over fresh variables
+        # (e) composition over fresh variables
         n = len(used)
         G = [z3.Real('cert_G%d' % i) for i in range(n)]
         C = [z3.Real('cert_C%d' % i) for i in range(n)]
         P_, Q_, X_ = z3.Real('cert_P'), z3.Real('cert_Q'), z3.Real('cert_X')
-        hyp = [g == 0 for g in G] + [P_ == z3.Sum([c * g for c, g in zip(C, G)]) if n else P_ == 0, Q_ != 0, X_ * Q_ == P_]
+        hyp = [g == 0 for g in G] + [P_ == (z3.Sum([c * g for c, g in zip(C, G)]) if n else 0), Q_ != 0, X_ * Q_ == P_]
         r4, dt4, _ = symx.solve(hyp + [X_ != 0], timeout_ms)
         if r4 != 'unsat':
             return 'unknown', time.time() - t0, 'composition step not confirmed'
-        return 'unsat', time.time() - t0, 'certificate with %d generators' % n
+        return 'unsat', time.time() - t0, 'certificate with %d generators, %d divisors' % (n, len(seen))
     except Exception as e:       # sympy failure = no hint
         return 'unknown', time.time() - t0, 'hint generation failed: %r' % (e,)
